@@ -49,6 +49,7 @@ class SwapMonitor:
         self.created = 0
         self.forbidden_checked = 0
         self.reach = Counter()
+        self.foreign = []
         # shadow state
         self.attr = {}
         self.motif = defaultdict(set)
@@ -92,12 +93,40 @@ class SwapMonitor:
         a, b = self.excess(u, name), self.excess(v, name)
         return t.get(a + b, 0) > 0 or t.get(b + a, 0) > 0
 
+    def adopt(self, G):
+        """the graph rewire() works on.  The property only asks that the *given* network is left alone, not how the working copy
+        is made: G.copy() of a MonitoredGraph is monitored already; a plain nx.Graph built some other way (nx.Graph(G), a rebuilt
+        edge list, ...) is adopted here by re-classing it, so its mutations are logged from now on; working on the given graph
+        itself is followed too (its first mutation is the violation, not the choice of object)."""
+        if isinstance(G, MonitoredGraph):
+            if G is not self.G_in and G.role != "working":
+                G.role = "working"
+            if G is not self.G_in and not any(c is G for c in self.G_in.children):
+                self.G_in.children.append(G)
+            return True
+        if type(G) is nx.Graph:
+            G.__class__ = MonitoredGraph
+            G.events = []
+            G.role = "working"
+            G.children = []
+            G._quiet = False
+            self.G_in.children.append(G)
+            self.reach["adopted_working_graphs"] += 1
+            return True
+        if not any(c is G for c in self.foreign):
+            self.foreign.append(G)
+        return False
+
     # -- quiescent point -------------------------------------------------------------------
     def settle(self, G):
         NN = self.NN
         p, self.pending = self.pending, None
         ev = list(G.events)
         del G.events[:]
+        if G is self.G_in:
+            if ev:
+                self.fail("the-given-network-was-modified", events=ev[:5])
+            return
         if p is None:
             if ev:
                 self.fail("working-graph-changed-without-an-accepted-swap", events=ev[:6])
@@ -193,9 +222,10 @@ class SwapMonitor:
 
         def wrapper(obj, G, e0s, e1s, u0, v0):
             NN = mon.NN
-            if not isinstance(G, MonitoredGraph) or G.role != "working":
-                mon.fail("rewire-does-not-work-on-a-copy-of-the-given-network", graph_role=getattr(G, "role", type(G).__name__))
-                raise BudgetStop("not working on a copy")
+            if not mon.adopt(G):
+                # a working graph the monitor cannot follow swap by swap (not an nx.Graph): the end-of-run checks still decide
+                mon.reach["unmonitored_proposals"] += 1
+                return orig(obj, G, e0s, e1s, u0, v0)
             mon.settle(G)
             if mon.violation is not None:
                 raise BudgetStop("violation")
